@@ -142,15 +142,19 @@ fn may_match_ellipsis_impl<'p, 't: 'p, D: Doc + 't>(
     return Some(ControlFlow::Continue);
   }
   loop {
+    // try the candidate on a scratch aggregator so that
+    // a rejected candidate does not leave its bindings behind
+    let mut scratch = agg.clone();
     if matches!(
       match_node_impl(
         goal_children.peek().unwrap(),
         cand_children.peek().unwrap(),
-        agg,
+        &mut scratch,
         strictness,
       ),
       MatchOneNode::MatchedBoth
     ) {
+      *agg = scratch;
       // found match non Ellipsis,
       match_ellipsis(
         agg,
